@@ -20,7 +20,8 @@ THEOREMS = ["C01_sem_binop_left_error", "C01_sem_binop_right_error", "C01_sem_bi
             "C01_statement_run_file_mode", "C01_statement_sessions_partial", "C01_statement_worlds_related",
             "C01_statement_sem_vs_vm", "C01_body_expression_compiled", "C01_sem_body_expression",
             "C01_user_call_compiled", "C01_definition_compiled_and_run", "C01_definition_extends_the_table",
-            "C01_sem_definition", "C01_sessions_with_definitions_partial"]
+            "C01_sem_definition", "C01_sessions_with_definitions_partial", "C01_sem_counter_monotone",
+            "C01_sessions_sem_vs_vm_partial"]
 
 CORPUS = [
     # witnesses of defects repaired in /repo (they stay in the corpus)
@@ -94,7 +95,8 @@ def run(tier, seed):
                        "%d sessions (%d statements) were run on the real code and evaluated in Coq on both. "
                        "For the while-language over globals with calls of the built-ins write/toa/aton/read and their I/O, definitions of "
                        "functions whose body is a pure expression of the parameters and globals, and calls of those functions, the "
-                       "property IS proved on the models (C01_sessions_with_definitions_partial, C01_statement_sem_vs_vm); "
+                       "property IS proved on the models, for whole sessions, between the two functions this check evaluates (sem_tree and "
+                       "run_tree: C01_sessions_sem_vs_vm_partial; C01_sessions_with_definitions_partial for the compiled side alone); "
                        "%d further sessions of that fragment were run in value mode and file mode, and Coq evaluated the theorems' "
                        "premises on the parsed trees: %d of %d trees of those sessions and %d of %d trees of the general sessions "
                        "lie inside the proven fragment." %
